@@ -491,12 +491,16 @@ def _alpha_renames(src_lines, item, contract):
         if not m:
             continue
         head, name, rest = m.groups()
+        if re.search(r"\blet\s+(?:mut\s+)?" + re.escape(name) + r"\b", joined):
+            # the local is still bound under its own name (its right-hand side changed): NOT a rename.  (Seeded change C19-5
+            # rewrote the right-hand side of `mu_1`; the statement of `mu_2` has the old text, and renaming the hints to mu_2
+            # made the C19 assertions about mu_1 speak about mu_2.)
+            continue
         # 1. same statement, other name
         pat = r"let\s+(?:mut\s+)?(\w+)\s*" + flex(rest)
         hits = [h for h in re.finditer(pat, joined)]
-        if len(hits) > 1:
-            # several bindings with this right-hand side: the renamed one is the one whose name the contract does not know
-            hits = [h for h in hits if not re.search(r"(?<![\w$.])" + re.escape(h.group(1)) + r"\b", ctext)]
+        # never rename to a local the contract already speaks about under its own name
+        hits = [h for h in hits if not re.search(r"(?<![\w$.])" + re.escape(h.group(1)) + r"\b", ctext)]
         if len(hits) == 1 and hits[0].group(1) != name:
             ren[name] = hits[0].group(1)
             continue
